@@ -30,18 +30,18 @@ theorem c13_all_unfound (s : Stack) (q : Service × List Listener) (hq : q ∈ s
   exact ⟨q, ⟨hq, by simp [h]⟩, rfl⟩
 
 /-- nothing watched at the first step: the task ends at once, nothing is ever sent -/
-theorem c13_nothing_watched (s : Stack) (tid : Nat) (t : TaskSt) (hpc : t.pc = .created) (hw : s.watched = []) :
+theorem c13_nothing_watched (s : Stack) (tid : Tid) (t : TaskSt) (hpc : t.pc = .created) (hw : s.watched = []) :
     (s.stepFind tid t).outs = s.outs ∧ (s.stepFind tid t).loop = s.loop := by
   by_cases hc : t.cancelled = true <;> simp [stepFind, hpc, hc, hw, finish, setTask]
 
 /-- STOPS WHEN FOUND: a round that finds nothing to ask for sends nothing and ends the task for good -/
-theorem c13_stops_when_found (s : Stack) (tid : Nat) (t : TaskSt) (k : Nat) (hpc : t.pc = .initial ∨ t.pc = .rep k)
+theorem c13_stops_when_found (s : Stack) (tid : Tid) (t : TaskSt) (k : Nat) (hpc : t.pc = .initial ∨ t.pc = .rep k)
     (hc : t.cancelled = false) (he : s.findEntries = []) :
     s.stepFind tid t = s.finish tid t := by
   rcases hpc with h | h <;> simp [stepFind, h, hc, he]
 
 /-- a round with something to ask sends ONE message, to the multicast group, with exactly those entries -/
-theorem c13_round (s : Stack) (tid : Nat) (t : TaskSt) (hpc : t.pc = .initial) (hc : t.cancelled = false)
+theorem c13_round (s : Stack) (tid : Tid) (t : TaskSt) (hpc : t.pc = .initial) (hc : t.cancelled = false)
     (he : s.findEntries ≠ []) :
     ∃ s', s' = s.sendSd s.findEntries none ∧
       s.stepFind tid t = (if 0 < s'.tm.repetitionsMax then s'.sleepFor tid t (pow2 0 * s'.tm.repetitionsBaseDelay) (.rep 0)
@@ -52,7 +52,7 @@ theorem c13_round (s : Stack) (tid : Nat) (t : TaskSt) (hpc : t.pc = .initial) (
 
 /-- TIMES / BOUND: round i+1 follows round i after base * 2^i, and after REPETITIONS_MAX repetitions the
 task ends: at most 1 + REPETITIONS_MAX messages per start -/
-theorem c13_next_round (s : Stack) (tid : Nat) (t : TaskSt) (k : Nat) (hpc : t.pc = .rep k) (hc : t.cancelled = false)
+theorem c13_next_round (s : Stack) (tid : Tid) (t : TaskSt) (k : Nat) (hpc : t.pc = .rep k) (hc : t.cancelled = false)
     (he : s.findEntries ≠ []) :
     s.stepFind tid t =
       (if k + 1 < s.tm.repetitionsMax then (s.sendSd s.findEntries none).sleepFor tid t (pow2 (k + 1) * s.tm.repetitionsBaseDelay) (.rep (k + 1))
@@ -61,7 +61,7 @@ theorem c13_next_round (s : Stack) (tid : Nat) (t : TaskSt) (k : Nat) (hpc : t.p
   simp [stepFind, hpc, hc, this]
 
 /-- a cancelled find task never sends -/
-theorem c13_cancelled_silent (s : Stack) (tid : Nat) (t : TaskSt) (hc : t.cancelled = true) :
+theorem c13_cancelled_silent (s : Stack) (tid : Tid) (t : TaskSt) (hc : t.cancelled = true) :
     (s.stepFind tid t).outs = s.outs := by
   unfold stepFind
   cases hpc : t.pc <;> simp [hc, finish, setTask]
